@@ -981,72 +981,59 @@ def evaluate__analyze_string(self: XPathFunction, context: ta.ContextType = None
         elif s == ')':
             level -= 1
 
+    def escape(text: str) -> str:
+        return text.replace('&', '&amp;').replace('<', '&lt;').replace('>', '&gt;')
+
+    def is_nested(parent: int, child: int) -> bool:
+        """Is the group `child` syntactically inside the group `parent`?"""
+        return parent < child and \
+            all(group_levels[i] > group_levels[parent] for i in range(parent + 1, child + 1))
+
+    def get_match_items(begin: int, end: int, groups: list[tuple[int, int, int]]) -> str:
+        """The text between two positions with the captured groups that lie inside it."""
+        items = []
+        pos = begin
+        i = 0
+        while i < len(groups):
+            _start, _stop, idx = groups[i]
+            i += 1
+            if _start < pos or _stop > end:
+                continue  # captured in a previous iteration of an enclosing group
+
+            nested = []
+            while i < len(groups) and is_nested(idx, groups[i][2]):
+                nested.append(groups[i])
+                i += 1
+
+            items.append(escape(input_string[pos:_start]))
+            if _start == _stop:
+                items.append('<group nr="{}"/>'.format(idx))
+            else:
+                items.append('<group nr="{}">{}</group>'.format(
+                    idx, get_match_items(_start, _stop, nested)
+                ))
+            pos = _stop
+
+        items.append(escape(input_string[pos:end]))
+        return ''.join(items)
+
     lines = ['<analyze-string-result xmlns="{}">'.format(XPATH_FUNCTIONS_NAMESPACE)]
     k = 0
 
     while k < len(input_string):
         match = compiled_pattern.search(input_string, k)
         if match is None:
-            lines.append('<non-match>{}</non-match>'.format(input_string[k:]))
+            lines.append('<non-match>{}</non-match>'.format(escape(input_string[k:])))
             break
-        elif not match.groups():
-            start, stop = match.span()
-            if start > k:
-                lines.append('<non-match>{}</non-match>'.format(input_string[k:start]))
-            lines.append('<match>{}</match>'.format(input_string[start:stop]))
-            k = stop
-        else:
-            start, stop = match.span()
-            if start > k:
-                lines.append('<non-match>{}</non-match>'.format(input_string[k:start]))
-                k = start
 
-            match_items = []
-            group_tmpl = '<group nr="{}">{}'
-            empty_group_tmpl = '<group nr="{}"/>'
-            unclosed_groups = 0
+        start, stop = match.span()
+        if start > k:
+            lines.append('<non-match>{}</non-match>'.format(escape(input_string[k:start])))
 
-            for idx in range(1, compiled_pattern.groups + 1):
-                _start, _stop = match.span(idx)
-                if _start < 0:
-                    continue
-                elif _start > k:
-                    if unclosed_groups:
-                        for _ in range(unclosed_groups):
-                            match_items.append('</group>')
-                        unclosed_groups = 0
-
-                    match_items.append(input_string[k:_start])
-
-                if _start == _stop:
-                    if group_levels[idx] <= group_levels[idx - 1]:
-                        for _ in range(unclosed_groups):
-                            match_items.append('</group>')
-                        unclosed_groups = 0
-                    match_items.append(empty_group_tmpl.format(idx))
-                    k = _stop
-                elif idx == compiled_pattern.groups:
-                    k = _stop
-                    match_items.append(group_tmpl.format(idx, input_string[_start:k]))
-                    match_items.append('</group>')
-                else:
-                    next_start = match.span(idx + 1)[0]
-                    if next_start < 0 or _stop < next_start or _stop == next_start \
-                            and group_levels[idx + 1] <= group_levels[idx]:
-                        k = _stop
-                        match_items.append(group_tmpl.format(idx, input_string[_start:k]))
-                        match_items.append('</group>')
-                    else:
-                        k = next_start
-                        match_items.append(group_tmpl.format(idx, input_string[_start:k]))
-                        unclosed_groups += 1
-
-            for _ in range(unclosed_groups):
-                match_items.append('</group>')
-
-            match_items.append(input_string[k:stop])
-            k = stop
-            lines.append('<match>{}</match>'.format(''.join(match_items)))
+        captured = [(match.start(idx), match.end(idx), idx)
+                    for idx in range(1, compiled_pattern.groups + 1) if match.start(idx) >= 0]
+        lines.append('<match>{}</match>'.format(get_match_items(start, stop, captured)))
+        k = stop
 
     lines.append('</analyze-string-result>')
     if self.parser.defuse_xml:
